@@ -559,7 +559,9 @@ ApplyCfg(st, kind, cfg, unsetsCtx) ==
              !.vars.fs = IF cfg.fsvar THEN <<COLON>> ELSE @]
 
 \* The property: nothing of the per-run state carries over.
-ExecSpec(st, kind, cfg) == Run(ApplyCfg([st EXCEPT !.pr = PrInit], kind, cfg, TRUE), kind, cfg)
+\* (FIELDS holds the CSV header names and RT the terminator of the last record read: "CSV header names" and "record
+\* state" of the statement, although the model keeps them next to the variables)
+ExecSpec(st, kind, cfg) == Run(ApplyCfg([st EXCEPT !.pr = PrInit, !.vars.fields = <<>>, !.vars.rtset = FALSE], kind, cfg, TRUE), kind, cfg)
 
 \* The code: resetCore clears the named fields (the record state is one group, as are the streams);
 \* after the run closeAll closes all streams (they stay in the maps, dead).  "dash": the scanners map
@@ -586,7 +588,9 @@ ResetCore(pr, clears) ==
              !.rng     = IF "range" \in clears THEN FALSE ELSE @,
              !.dash    = IF "dash" \in clears THEN [open |-> FALSE, rest |-> <<>>] ELSE @]
 ExecCode(st, kind, cfg, clears) ==
-  Run(ApplyCfg([st EXCEPT !.pr = ResetCore(@, clears)], kind, cfg, "ctx" \in clears), kind, cfg)
+  Run(ApplyCfg([st EXCEPT !.pr = ResetCore(@, clears),
+                          !.vars.fields = IF "hdr" \in clears THEN <<>> ELSE @,
+                          !.vars.rtset = IF "record" \in clears THEN FALSE ELSE @], kind, cfg, "ctx" \in clears), kind, cfg)
 
 \* What of the per-run state a run leaves behind can still matter to a later ExecCode(.., clears): the fields resetCore
 \* does not clear, minus those ApplyCfg overwrites whatever they hold.  (ResetCore is idempotent, so
